@@ -492,6 +492,101 @@ func main() {
 		}
 		recover_(run, unit, b, what, "first_statement")
 	})
+	// a first submission whose storage write is undone (failed INSERT / failed COMMIT), then ANOTHER log's first
+	// submission, then the first log again: whatever a store remembers about a row it tried to write must not
+	// survive the rollback (SQLite hands a rolled-back rowid to the next inserted row)
+	run.Floor("undone_first_insert_plans", 8)
+	undone := []struct {
+		op    string
+		after bool
+	}{{seams.SQLCommit, false}, {seams.SQLExec, false}, {seams.SQLExec, true}}
+	run.Units("undone_first_insert", 2*len(undone)*run.Pick(2, 8), 0, func(unit int64, r *rand.Rand) {
+		level := []string{"driver-mem", "driver-file"}[unit%2]
+		pl := undone[int(unit/2)%len(undone)]
+		b, err := newBench(r, level, dir)
+		if err != nil {
+			run.Inconclusive(err.Error())
+			return
+		}
+		defer b.close()
+		la, lb := b.rn.U.Logs[0], b.rn.U.Logs[1]
+		what := fmt.Sprintf("undone_first_insert/%s/%s/after=%v", level, pl.op, pl.after)
+		upd := func(l *gen.Log, old, size uint64) ([]byte, error, bool) {
+			var ret []byte
+			var uerr error
+			var proof [][]byte
+			if old > 0 {
+				proof = l.Branches[0].Consistency(old, size)
+			}
+			why := b.guarded(func() { ret, uerr = b.rn.W.Update(context.Background(), l.ID, old, l.Honest(0, size), proof) })
+			if why != "" {
+				if why == "inconclusive" {
+					run.Inconclusive("watchdog: an update did not return (" + what + ")")
+				} else {
+					run.Violate("update_never_returns;undone_first_insert", "an update did not complete: "+why, unit, map[string]any{"plan": what})
+				}
+				return nil, nil, false
+			}
+			return ret, uerr, true
+		}
+		// which write of the request is hit: the last exec / the commit of the update transaction
+		armed, fired := true, false
+		b.plan.SetHook(func(op string, idx int, phase string) error {
+			want := "before"
+			if pl.after {
+				want = "after"
+			}
+			if armed && op == pl.op && phase == want {
+				armed, fired = false, true
+				return errors.New("injected: database or disk is full")
+			}
+			return nil
+		})
+		a1 := 1 + r.Uint64N(8)
+		_, err1, ok := upd(la, 0, a1)
+		b.plan.SetHook(nil)
+		if !ok {
+			return
+		}
+		run.Count("evaluations")
+		run.Count("undone_first_insert_plans")
+		run.Distinct("nontrivial", what)
+		detail := map[string]any{"plan": what, "first_error": fmt.Sprint(err1), "fault_fired": fired}
+		snap := b.rn.Snap()
+		if err1 != nil && snap.CP[la.ID] != nil {
+			// (an exec reported failed after it ran is undone when the transaction is closed without commit)
+			run.Violate("failed_update_left_state;undone_first_insert", "the faulted first submission returned an error and the log has a stored checkpoint", unit, detail)
+			return
+		}
+		if err1 == nil {
+			return // the fault position was not on this request's path: nothing to learn
+		}
+		bRet, errB, ok := upd(lb, 0, 2+r.Uint64N(8))
+		if !ok {
+			return
+		}
+		if errB != nil {
+			run.Violate("honest_first_use_refused_after_fault;undone_first_insert", "another log's first submission after the undone write: "+errB.Error(), unit, detail)
+			return
+		}
+		aRet, errA, ok := upd(la, 0, a1)
+		if !ok {
+			return
+		}
+		if errA != nil {
+			run.Violate("honest_first_use_refused_after_fault;undone_first_insert", "the first log's first submission, repeated on a healthy store: "+errA.Error(), unit, detail)
+			return
+		}
+		snap = b.rn.Snap()
+		if !bytes.Equal(snap.CP[la.ID], aRet) || !bytes.Equal(snap.CP[lb.ID], bRet) {
+			detail["log_a"], detail["log_b"] = string(snap.CP[la.ID]), string(snap.CP[lb.ID])
+			run.Violate("accepted_update_stored_elsewhere;undone_first_insert", fmt.Sprintf("after: first submission of log A undone by a storage fault, first submission of log B accepted, first submission of log A accepted - log A serves what its update returned: %v, log B serves what its update returned: %v", bytes.Equal(snap.CP[la.ID], aRet), bytes.Equal(snap.CP[lb.ID], bRet)), unit, detail)
+			return
+		}
+		if why := b.quiescent(); why != "" {
+			run.Violate("not_quiescent;undone_first_insert", why, unit, detail)
+		}
+	})
 	// multi-fault histories
 	run.Units("multi", run.Pick(1500, 60000), 0, func(unit int64, r *rand.Rand) {
 		level := []string{"iface-mem", "iface-sql", "driver-mem", "driver-file"}[r.IntN(4)]
